@@ -99,6 +99,14 @@ fn res_label<T>(r: &Result<T, sut::SutErr>) -> String {
     }
 }
 
+/// Hostile values for the metadata the CLI interprets (numbers, triplets in both documented spellings, locations).
+pub const HOSTILE_META_VALUES: [&str; 40] = [
+    "", "1", "1, 2", "1, 2, 3, 4", "a, b, c", "NaN, NaN, NaN", "inf, 0, 0", "(1, 2", "{ ren: 1 }", "{ ren: 1, nren: x, co2 }", "1;2;3", "-1", "0",
+    "0.0001", "2", "1e39", "abc", "MADRID", "PENINSULA ", "0,5", "1 2 3", ", ,", "1,,3", "{}", "{ }", "{ ren: 1, }", "{ ren }", "{ ren: 1, nren: 2, co2 }",
+    "{ ren: 1, nren: 2, co2: 3 }", "{ren:1,nren:2,co2:3}", "{ : 1 }", "{ ren: }", "{,}", "{ ren: 1 nren: 2 }", "{ ren: 1, nren: 2, co2: 3, }", "{{ ren: 1 }}",
+    "{ ren: 1, ren: 2, ren: 3 }", "{ co2: é }", "(1, 2, 3)", "[1, 2, 3]",
+];
+
 /// Run every public entry point on whatever the previous stage produced.
 pub fn pipeline(comp_text: &str, factors: &FactorsIn, k_exp: f32, area: f32, red1: Option<[f32; 3]>, red2: Option<[f32; 3]>) -> Pipeline {
     let mut p = Pipeline::default();
@@ -121,6 +129,26 @@ pub fn pipeline(comp_text: &str, factors: &FactorsIn, k_exp: f32, area: f32, red
         p.stage("parse_factors_raw", guard(|| t.parse::<Factors>().map(|f| f.to_string())), |r| if r.is_ok() { "ok".into() } else { "err".into() });
     }
     if let Some(c) = &comps {
+        // the accessors the CLI uses for the metadata it interprets, and the triplet parser on every value
+        p.stage(
+            "metadata_accessors",
+            guard(|| {
+                use cteepbd::types::MetaVec;
+                let mut n = 0usize;
+                for k in ["CTE_RED1", "CTE_RED2"] {
+                    n += c.get_meta_rennren(k).is_some() as usize;
+                }
+                for k in ["CTE_AREAREF", "CTE_KEXP"] {
+                    n += c.get_meta_f32(k).is_some() as usize;
+                }
+                n += c.get_meta("CTE_LOCALIZACION").is_some() as usize;
+                for m in c.get_metavec() {
+                    n += m.value.parse::<cteepbd::types::RenNrenCo2>().is_ok() as usize;
+                }
+                n
+            }),
+            |_| "ok".into(),
+        );
         p.stage("components_display_reparse", guard(|| c.to_string().parse::<Components>().is_ok()), |ok| format!("{}", ok));
         p.stage("components_xml", guard(|| c.to_xml().len()), |_| "ok".into());
         p.stage("components_json", guard(|| serde_json::to_string(c).map(|s| s.len()).map_err(|e| e.to_string())), |r| if r.is_ok() { "ok".into() } else { "err".into() });
@@ -259,6 +287,17 @@ fn gen_l(ctx: &Ctx, seed: u64, run_index: u64) -> LScn {
             Blob::from_bytes(&bytes)
         }
     };
+    // hostile values for the metadata the CLI interprets, in the library world too (its accessors are library code)
+    let comp = if d.chance(0.12) {
+        let key = *d.pick(&["CTE_RED1", "CTE_RED2", "CTE_AREAREF", "CTE_KEXP", "CTE_LOCALIZACION"]);
+        let val = *d.pick(&HOSTILE_META_VALUES);
+        fired.push(format!("components:hostile_metadata_{}", key));
+        let mut bytes = format!("#META {}: {}\n", key, val).into_bytes();
+        bytes.extend_from_slice(&comp.bytes());
+        Blob::from_bytes(&bytes)
+    } else {
+        comp
+    };
     let factors = gen_factors_in(&mut w, &mut d, &b, &mut fired, false);
     let p_h = if o.chance(0.3) { 0.5 } else { 0.0 };
     let triple = |o: &mut Rng| -> [String; 3] {
@@ -328,10 +367,7 @@ fn gen_p(ctx: &Ctx, seed: u64, run_index: u64) -> PScn {
     // hostile values for the metadata the CLI interprets (area, k_exp, location, RED1/RED2 factors)
     if !force_valid && d.chance(0.15) {
         let key = *d.pick(&["CTE_RED1", "CTE_RED2", "CTE_AREAREF", "CTE_KEXP", "CTE_LOCALIZACION"]);
-        let val = *d.pick(&[
-            "", "1", "1, 2", "1, 2, 3, 4", "a, b, c", "NaN, NaN, NaN", "inf, 0, 0", "(1, 2", "{ ren: 1 }", "{ ren: 1, nren: x, co2 }", "1;2;3", "-1", "0",
-            "0.0001", "2", "1e39", "abc", "MADRID", "PENINSULA ", "0,5", "1 2 3", ", ,", "1,,3",
-        ]);
+        let val = *d.pick(&HOSTILE_META_VALUES);
         text = format!("#META {}: {}\n{}", key, val, text.trim_start_matches('\u{feff}'));
         fired.push(format!("components:hostile_metadata_{}", key));
         valid_input = false;
